@@ -83,7 +83,7 @@ func (k Keeper) ApplyVestingSchedule(
 		err := k.addGrant(
 			ctx,
 			vestingAcc,
-			types.Min64(startTime.Unix(), vestingAcc.StartTime.Unix()),
+			startTime.Unix(),
 			lockupPeriods,
 			vestingPeriods,
 			coins,
